@@ -105,6 +105,13 @@ static int flag_sets (const Tgt *tg, unsigned *out, int max, int mode_c11, VhRng
         out[n++] = (d & ~all) | ORC_TARGET_MMX_MMX | f;
       }
       out[n++] = ((d & ~all) | ORC_TARGET_MMX_MMX) & ~ORC_TARGET_MMX_64BIT;
+      /* feature bits this host does not have can still be asked for: the code is classified, not executed */
+      if (n + 4 <= max) {
+        out[n++] = (d & ~all) | ORC_TARGET_MMX_MMX | ORC_TARGET_MMX_MMXEXT | ORC_TARGET_MMX_3DNOW;
+        out[n++] = (d & ~all) | ORC_TARGET_MMX_MMX | ORC_TARGET_MMX_MMXEXT | ORC_TARGET_MMX_3DNOW | ORC_TARGET_MMX_3DNOWEXT;
+        out[n++] = (d & ~all) | ORC_TARGET_MMX_MMX | ORC_TARGET_MMX_MMXEXT | ORC_TARGET_MMX_3DNOW | ORC_TARGET_MMX_SSE4_1;
+        out[n++] = (d & ~all) | ORC_TARGET_MMX_MMX | all;
+      }
     } else {
       unsigned f = 0; for (i = 0; i < 3; i++) if (vh_chance (r, 1, 2)) f |= feat[i];
       out[n++] = (d & ~all) | ORC_TARGET_MMX_MMX | f;
